@@ -30,6 +30,8 @@ const (
 	c15StartWait  = 60 * time.Second
 	c15ByTopic    = "c15_bystander_topic"
 	c15ByChan     = "c15_bystander_chan"
+	c15ByEphChan  = "c15_bystander_echan#ephemeral"  // second channel of the bystander topic
+	c15ByEphTopic = "c15_bystander_etopic#ephemeral" // second topic of the bystander (with channel c15ByChan)
 	c15ByAddr     = "c15-bystander"
 	c15ByTCPPort  = 4150
 	c15ByHTTPPort = 4151
@@ -350,17 +352,22 @@ func (w *c15World) registerBystander() error {
 	if b, st := c.readFrame(c15Deadline); st != "frame" || c15Kind(b) != "IDJSON" {
 		return fmt.Errorf("bystander IDENTIFY: %s %s", st, c15Quote(b, 80))
 	}
-	c.send([]byte("REGISTER " + c15ByTopic + " " + c15ByChan + "\n"))
-	if b, st := c.readFrame(c15Deadline); st != "frame" || c15Kind(b) != "OK" {
-		return fmt.Errorf("bystander REGISTER: %s %s", st, c15Quote(b, 80))
+	for _, cmd := range c15ByRegister {
+		c.send([]byte(cmd))
+		if b, st := c.readFrame(c15Deadline); st != "frame" || c15Kind(b) != "OK" {
+			return fmt.Errorf("bystander %q: %s %s", cmd, st, c15Quote(b, 80))
+		}
 	}
 	w.lastPing = time.Now()
 	return nil
 }
 
+var c15ByRegister = []string{"REGISTER " + c15ByTopic + " " + c15ByChan + "\n", "REGISTER " + c15ByTopic + " " + c15ByEphChan + "\n",
+	"REGISTER " + c15ByEphTopic + " " + c15ByChan + "\n"}
+
 // bystander restores what an admin call removed or hid: UNREGISTER topic, REGISTER topic channel
 func (w *c15World) restoreBystander() error {
-	for _, cmd := range []string{"UNREGISTER " + c15ByTopic + "\n", "REGISTER " + c15ByTopic + " " + c15ByChan + "\n"} {
+	for _, cmd := range append([]string{"UNREGISTER " + c15ByTopic + "\n", "UNREGISTER " + c15ByEphTopic + "\n"}, c15ByRegister...) {
 		w.by.send([]byte(cmd))
 		if b, st := w.by.readFrame(c15Deadline); st != "frame" || c15Kind(b) != "OK" {
 			return fmt.Errorf("bystander %q: %s %s", cmd, st, c15Quote(b, 80))
@@ -386,9 +393,11 @@ type c15ByView struct {
 	Producer  bool // ... and lists the bystander
 	Channel   bool // ... and lists the channel
 	NodeTopic bool // /nodes entry lists the topic
+	EphChan   bool // the topic's second, #ephemeral channel is listed
+	EphTopic  bool // the bystander's second, #ephemeral topic is there with producer and channel
 }
 
-var c15ByIntact = c15ByView{true, true, true, true}
+var c15ByIntact = c15ByView{true, true, true, true, true, true}
 
 // bystanderView: what /lookup and /nodes show; err != nil when it could not be observed
 func (w *c15World) bystanderView() (c15ByView, string, error) {
@@ -421,7 +430,36 @@ func (w *c15World) bystanderView() (c15ByView, string, error) {
 			if c == c15ByChan {
 				v.Channel = true
 			}
+			if c == c15ByEphChan {
+				v.EphChan = true
+			}
 		}
+	}
+	if st2, body2, err2 := w.d.get("/lookup?topic=" + c15Esc(c15ByEphTopic)); err2 != nil {
+		return v, detail, err2
+	} else if st2 == 200 {
+		var r struct {
+			Channels  []string `json:"channels"`
+			Producers []struct {
+				BroadcastAddress string `json:"broadcast_address"`
+			} `json:"producers"`
+		}
+		json.Unmarshal(body2, &r)
+		for _, p := range r.Producers {
+			if p.BroadcastAddress == c15ByAddr {
+				v.EphTopic = true
+			}
+		}
+		chanListed := false
+		for _, c := range r.Channels {
+			chanListed = chanListed || c == c15ByChan
+		}
+		v.EphTopic = v.EphTopic && chanListed
+		if !v.EphTopic {
+			detail += fmt.Sprintf("; /lookup (ephemeral topic) -> %d %s", st2, c15Quote(body2, 200))
+		}
+	} else {
+		detail += fmt.Sprintf("; /lookup (ephemeral topic) -> %d", st2)
 	}
 	st, body, err = w.d.get("/nodes")
 	if err != nil {
